@@ -69,6 +69,8 @@ type bsim struct {
 	cliCopyToMemory bool
 	// cliPlain: the next on-disk workspace is a plain directory tree (no links, second names or archives)
 	cliPlain bool
+	// cliRooted[i]: module i is a v1beta1 module whose files live below two roots
+	cliRooted []bool
 	// cliLastOut: the image file the last cliBuild wrote
 	cliLastOut string
 	// withFormatDiff: this run also produces the `buf format -d` output
@@ -791,6 +793,9 @@ func Run(tp *tape.Tape, env *engine.Env) *engine.Outcome {
 	}
 	if m.prop == "C02" && m.cliRoot != "" {
 		m.cliRunAfterRun()
+	}
+	if m.prop == "C02" && tp.Draw("twobroken", 6) == 5 {
+		m.cliTwoBrokenModules()
 	}
 	s.Drain()
 	out := engine.FromSim(s)
